@@ -132,6 +132,29 @@ class Built:
                 return {"t": "ref", "n": ref(v)}
             return {"t": "unknown", "py": type(v).__name__}
 
+        def ty_of(t, required):
+            from experimaestro.core import types as T
+            def go(t):
+                if isinstance(t, T.IntType) or isinstance(t, T.BoolType):
+                    return "int"        # bool is hashed as the int 0/1
+                if isinstance(t, T.FloatType):
+                    return "float"
+                if isinstance(t, T.StrType):
+                    return "str"
+                if isinstance(t, T.EnumType):
+                    return "enum"
+                if isinstance(t, T.ObjectType):
+                    return "obj"
+                if isinstance(t, T.ArrayType):
+                    return ["list", go(t.type)]
+                if isinstance(t, T.DictType):
+                    if not isinstance(t.keytype, T.StrType):
+                        return "other"
+                    return ["dict", go(t.valuetype)]
+                return "other"          # Path, Any, Union, generics: outside the typed domain
+            r = go(t)
+            return r if required else ["opt", r]
+
         def cls_of(o):
             xt = o.__xpmtype__
             if id(xt) not in cindex:
@@ -141,7 +164,8 @@ class Built:
                     tid=list(xt.identifier.name.encode("utf-8")),
                     args=[dict(name=list(a.name.encode("utf-8")), ignored=bool(a.ignored),
                                gen=a.generator is not None, const=bool(a.constant), required=bool(a.required),
-                               default=None if a.default is None else ev(a.default))
+                               default=None if a.default is None else ev(a.default),
+                               ty=ty_of(a.type, a.required))
                           for a in xt.arguments.values()]))
             return cindex[id(xt)]
 
